@@ -23,6 +23,24 @@ let out_s = function 0 -> "ok" | 3 -> "Econd" | 4 -> "Edepth" | 5 -> "Eother" | 
 let lerr_s = function LCond -> "Econd" | LDepth -> "Edepth" | LOther -> "Eother" | LFuel -> "FUEL"
 let set_s l = "{" ^ String.concat "," (List.sort compare (List.map subj_s l)) ^ "}"
 
+(* Cross-check of extraction: with ORACLE_DUMP=<file> every value the EXTRACTED model computes for a
+   request (validate; list_users: every possible answer, error / ambiguity classes, trigger flags;
+   stratified; converged and holds3 for every subject whose Sem value enters the verdict) is
+   appended to that file, one line per request, before any comparison with the implementation;
+   bin/coqreplay_c06.py recomputes the same numbers inside Coq with vm_compute. *)
+let dump_chan = match Sys.getenv_opt "ORACLE_DUMP" with
+  | Some p when p <> "" -> Some (open_out_gen [Open_append; Open_creat] 0o644 p)
+  | _ -> None
+let b3_code = function T -> 0 | F -> 1 | E -> 2
+let subj_code = function
+  | SObj o -> 3 * (int_of_n o.otype + 1000 * int_of_n o.oid)
+  | SWild t -> 1 + 3 * int_of_n t
+  | SSet (o, r) -> 2 + 3 * (int_of_n o.otype + 1000 * (int_of_n o.oid + 1000 * int_of_n r))
+let lerr_bit = function LCond -> 1 | LDepth -> 2 | LOther -> 4 | LFuel -> 8
+let lerr_mask l = List.fold_left (fun acc e -> acc lor lerr_bit e) 0 l
+let trig_mask tg = (if tg.tg_race then 1 else 0) + (if tg.tg_excl_cycle then 2 else 0) + (if tg.tg_union then 4 else 0)
+                   + (if tg.tg_inter then 8 else 0) + (if tg.tg_excl then 16 else 0) + (if tg.tg_merge then 32 else 0)
+
 let same_set a b = List.for_all (fun x -> List.mem x b) a && List.for_all (fun x -> List.mem x a) b
 
 let f _id vs =
@@ -38,10 +56,12 @@ let f _id vs =
     (* the real Checks: subject -> pathx, (object, relation) -> outcome *)
     let chk : (subject * obj * n, int) Hashtbl.t = Hashtbl.create 64 in
     let pathx : (subject, (n * n) list) Hashtbl.t = Hashtbl.create 16 in
+    let chk_subjects = ref [] in
     List.iter (fun sv ->
       match as_list sv with
       | [s; px; results] ->
         let subj = dec_subject s in
+        chk_subjects := subj :: !chk_subjects;
         Hashtbl.replace pathx subj (List.map dec_pair (as_list px));
         List.iter (fun rv ->
           match as_list rv with
@@ -53,7 +73,17 @@ let f _id vs =
       match Hashtbl.find_opt sem_cache subj with
       | Some x -> x
       | None -> let x = lfp m cs store subj ats in Hashtbl.replace sem_cache subj x; x in
+    let chk_subjects = List.rev !chk_subjects in
     let props = ref [] and diffs = ref [] and knowns = ref [] in
+    (* one dump line per request: model values, then the number of (converged, holds3) pairs, then the pairs *)
+    let dump = ref [] and dsem = ref [] in
+    let dump_add l = if dump_chan <> None then dump := List.rev_append l !dump in
+    let dump_sem l = if dump_chan <> None then dsem := List.rev_append l !dsem in
+    let dump_flush () = match dump_chan with
+      | Some ch ->
+        let all = List.rev !dump @ (List.length !dsem / 2 :: List.rev !dsem) in
+        output_string ch (_id ^ " " ^ String.concat " " (List.map string_of_int all) ^ "\n"); flush ch; dump := []; dsem := []
+      | None -> () in
     (* individual Check of (subject, o, rel) against the reference semantics, classified as in C01;
        returns None when fine / not judgeable, Some (known_flag option, text) otherwise *)
     let check_vs_sem subj o rel spec =
@@ -80,7 +110,7 @@ let f _id vs =
            else if in_model && tr.tr_swallow then Some (Some "cond_err_swallowed", why)
            else Some (None, why)) in
     List.iter (fun rv ->
-      match as_list rv with
+      (match as_list rv with
       | [ot; oi; r; ft; fr; depth; limit; edges; outcome; users] ->
         let o = mk_obj (as_int ot) (as_int oi) in
         let rel = n_of_int (as_int r) in
@@ -92,7 +122,9 @@ let f _id vs =
             (if limit > 0 then Printf.sprintf ", limit %d" limit else "")
             (if as_int depth <> 25 then Printf.sprintf ", depth %d" (as_int depth) else "") in
         let diff s = diffs := (where ^ " " ^ s) :: !diffs in
-        (match validate m ftype frel o rel with
+        let vres = validate m ftype frel o rel in
+        dump_add [match vres with None -> 0 | Some VType -> 1 | Some VRel -> 2];
+        (match vres with
          | Some VType -> if outcome <> 8 then diff ("impl=" ^ out_s outcome ^ " model=invalid-type")
          | Some VRel -> if outcome <> 9 then diff ("impl=" ^ out_s outcome ^ " model=invalid-relation")
          | None ->
@@ -101,6 +133,9 @@ let f _id vs =
            else begin
              let lf = list_users m cs store ftype frel (nat_of_int (as_int depth)) (edges = 0) o rel in
              let errs = lf.lf_errs and amb = lf.lf_amb in
+             dump_add (List.length lf.lf_results ::
+                       List.concat_map (fun res -> List.length res :: List.map subj_code res) lf.lf_results);
+             dump_add [lerr_mask errs; lerr_mask amb; trig_mask lf.lf_trig; (if strat then 1 else 0)];
              let cls = match outcome with 3 -> Some LCond | 4 -> Some LDepth | 5 -> Some LOther | _ -> None in
              let model_s = Printf.sprintf "model: results=[%s] errs=[%s] amb=[%s]"
                  (String.concat " | " (List.map set_s lf.lf_results))
@@ -160,6 +195,7 @@ let f _id vs =
                if strat then begin
                  List.iter (fun u ->
                    let (v, conv) = sem u in
+                   dump_sem [(if conv then 1 else 0); b3_code (atomval u v o rel)];
                    if conv then begin
                      let spec = atomval u v o rel in
                      if spec <> T then begin
@@ -175,14 +211,15 @@ let f _id vs =
                       | Some (None, why) -> props := (where ^ " re-check of " ^ subj_s u ^ ": " ^ why) :: !props)
                    end) users;
                  if limit = 0 then
-                   Hashtbl.iter (fun (subj, o', rel') _ ->
-                     if o' = o && rel' = rel && not (List.mem subj users) then begin
+                   List.iter (fun subj ->
+                     if Hashtbl.mem chk (subj, o, rel) && not (List.mem subj users) then begin
                        let cand = (match subj with
                            | SObj x -> frel = N0 && x.otype = ftype
                            | SSet (x, r') -> frel <> N0 && x.otype = ftype && r' = frel
                            | SWild _ -> false) in
                        if cand then begin
                          let (v, conv) = sem subj in
+                         dump_sem [(if conv then 1 else 0); b3_code (atomval subj v o rel)];
                          if conv then begin
                            let spec = atomval subj v o rel in
                            let covered = (match subj with SObj x -> List.mem (SWild x.otype) users | _ -> false) in
@@ -194,11 +231,12 @@ let f _id vs =
                             | Some (None, why) -> props := (where ^ " check of " ^ subj_s subj ^ ": " ^ why) :: !props)
                          end
                        end
-                     end) chk
+                     end) chk_subjects
                end
              end
            end)
-      | _ -> failwith "request") (as_list requests);
+      | _ -> failwith "request");
+      dump_flush ()) (as_list requests);
     if Sys.getenv_opt "C06_VERBOSE" <> None then begin
       List.iter (fun x -> prerr_endline (_id ^ "\tPROP " ^ x)) (List.rev !props);
       List.iter (fun x -> prerr_endline (_id ^ "\tDIFF " ^ x)) (List.rev !diffs);
